@@ -397,6 +397,25 @@ def _after(cfg, a, b) -> bool:
 from ..selftest import Variant  # noqa: E402
 
 VARIANTS = [
+    # behaviour-preserving refactors: must stay quiet
+    Variant(
+        "quiet-lint-exit-through-locals", CLI,
+        "        exit_code = result.stats(EXIT_FAIL, EXIT_SUCCESS)[\"exit code\"]\n",
+        "        all_stats = result.stats(EXIT_FAIL, EXIT_SUCCESS)\n        exit_code = all_stats[\"exit code\"]\n",
+        "QUIET", None, "stats dict held in a local before the exit code is read",
+    ),
+    Variant(
+        "quiet-paths-fix-unfixable-loop-sum", CLI,
+        "    num_unfixable = sum(p.num_unfixable_lint_errors for p in result.paths)\n",
+        "    num_unfixable = 0\n    for linted_dir in result.paths:\n        num_unfixable += linted_dir.num_unfixable_lint_errors\n",
+        "QUIET", None, "generator sum spelled as an accumulating loop",
+    ),
+    Variant(
+        "quiet-handle-unparsable-if-else", CLI,
+        "    return EXIT_FAIL if num_filtered_errors else EXIT_SUCCESS\n\n\ndef _stdin_fix(",
+        "    if num_filtered_errors:\n        return EXIT_FAIL\n    return EXIT_SUCCESS\n\n\ndef _stdin_fix(",
+        "QUIET", None, "conditional expression spelled as if/return",
+    ),
     Variant("violations-extended-after-flagging", "src/sqlfluff/core/linter/linter.py",
             "        # We process the ignore config here if appropriate\n        for violation in violations:\n            violation.ignore_if_in(parsed.config.get(\"ignore\"))\n            violation.warning_if_in(parsed.config.get(\"warnings\"))\n",
             "        # We process the ignore config here if appropriate\n        for violation in violations:\n            violation.ignore_if_in(parsed.config.get(\"ignore\"))\n            violation.warning_if_in(parsed.config.get(\"warnings\"))\n        violations += list(parsed.templating_violations)[:0]\n",
